@@ -83,7 +83,7 @@ package mqtt
 //@ spec
 //@ // no two entries for the same filter: the list denotes a map filter -> QoS
 //@ func nodupTopics(d []Subscription, n int) bool {
-//@ 	return forall(0, n, func(i int) bool { return forall(0, i, func(j int) bool { return d[i].Topic != d[j].Topic }) })
+//@ 	return forallPairs(0, n, func(i, j int) bool { return d[i].Topic != d[j].Topic })
 //@ }
 //@ end
 
@@ -103,11 +103,14 @@ package mqtt
 //@   requires d != nil
 //@   assigns *d; (*d)[*]
 //@   let d0 []Subscription = *d
-//@   let old ssnap[Subscription] = sliceSnap(*d)
-//@   loop 1 invariant 0 <= l && l <= len(d0) && sameSlice(*d, d0) && (nodupTopics(d0, len(d0)) ==> nodupTopics(*d, l) &&
-//@        forall(0, l, func(k int) bool { return forall(0, rangeindex+1, func(j int) bool { return (*d)[k].Topic != s[j] }) }))
-//@   loop 2 invariant 0 <= l && l <= len(d0) && sameSlice(*d, d0) && (nodupTopics(d0, len(d0)) ==> nodupTopics(*d, l) &&
-//@        forall(0, rangeindex+1, func(k int) bool { return (*d)[k].Topic != topic }))
+//@   let nd bool = nodupTopics(*d, len(*d))
+//@   loop 1 invariant bounds: 0 <= l && l <= len(d0) && sameSlice(*d, d0)
+//@   loop 1 invariant nodup: nd ==> nodupTopics(*d, l)
+//@   loop 1 invariant removed: nd ==> forallGrid(l, rangeindex+1, func(k, j int) bool { return (*d)[k].Topic != s[j] })
+//@   loop 2 invariant bounds: 0 <= l && l <= len(d0) && sameSlice(*d, d0) && 0 <= rangeindex1+1 && rangeindex1+1 < len(s) && topic == s[rangeindex1+1]
+//@   loop 2 invariant nodup: nd ==> nodupTopics(*d, l)
+//@   loop 2 invariant removed: nd ==> forallGrid(l, rangeindex1+1, func(k, j int) bool { return (*d)[k].Topic != s[j] })
+//@   loop 2 invariant scanned: nd ==> forall(0, rangeindex2+1, func(k int) bool { return (*d)[k].Topic != topic })
 //@   ensures[C08] shrinks: len(*d) <= len(d0)
-//@   ensures[C08] removed: nodupTopics(d0, len(d0)) ==> forall(0, len(*d), func(k int) bool { return forall(0, len(s), func(j int) bool { return (*d)[k].Topic != s[j] }) })
-//@   ensures[C08] nodup: nodupTopics(d0, len(d0)) ==> nodupTopics(*d, len(*d))
+//@   ensures[C08] removed: nd ==> forallGrid(len(*d), len(s), func(k, j int) bool { return (*d)[k].Topic != s[j] })
+//@   ensures[C08] nodup: nd ==> nodupTopics(*d, len(*d))
